@@ -143,7 +143,8 @@ fn round_trip(t: &Expr) -> Trip {
     };
     match guard(|| Expr::parse(&rendering)) {
         Ok(Ok(t2)) => {
-            if &t2 == t {
+            // equal trees, and equal in what PartialEq does not see (the sign of a zero, the scale of a decimal)
+            if &t2 == t && format!("{t2:?}") == format!("{t:?}") {
                 Trip::Ok
             } else {
                 Trip::Fail { class: "reparsed-to-different-tree", rendering, detail: clip(format!("{t2:?}"), 800) }
